@@ -70,7 +70,14 @@ def sym(E, p, kf):
     da = typed(a, dta)
     if kind == "reduce":
         v = res["items"][1]
-        if op in ("mean", "npmean"):
+        if op in ("sum", "npsum") and dta != "int64":
+            bits = c14.BITS[dta]
+            ext = (lambda x: z3.SignExt(64 - bits, x)) if dta.startswith("int") else (lambda x: z3.ZeroExt(64 - bits, x))
+            e = ext(a[0])
+            for x in a[1:]:
+                e = e + ext(x)
+            conds.append(specs.eqv(v["val"], e))          # numpy sums small integers in 64 bits
+        elif op in ("mean", "npmean"):
             fdiv = z3.Function("uf_idiv_f64", z3.IntSort(), z3.IntSort(), z3.BitVecSort(64))
             conds.append(specs.eqv(v["val"], fdiv(z3.Sum(a), z3.IntVal(n))))
         elif op in ("sum", "npsum"):
@@ -175,6 +182,8 @@ def jobs(tier, seed):
         out.append(dict(kind="opr", op=op, n=n))
     for op in ("sum", "npsum", "any", "all", "max", "mall", "many", "mean", "npmean"):
         out.append(dict(kind="reduce", op=op, n=n + 1))
+    for dt in ("uint8", "int8", "uint16"):
+        out.append(dict(kind="reduce", op="sum", n=n + 1, dta=dt))
     out.append(dict(kind="concat", op="concatenate", n=2 if q else 3))
     out.append(dict(kind="concat", op="concatenate", n=2, three=True))
     out.append(dict(kind="rr", op="logical_or", n=n, dta="bool", dtb="bool"))
